@@ -276,6 +276,14 @@ void save_svalue (svalue_t * v, char **buf) {
         *(*buf) = '\0';
         return;
       }
+
+    default:
+      {
+        /* objects, functions, buffers: not persisted, stored as 0 (svalue_save_size() counts this digit) */
+        *(*buf)++ = '0';
+        *(*buf) = '\0';
+        return;
+      }
     }
 }
 
